@@ -202,6 +202,7 @@ package kafka
 //@   ensures result ==> wbOK(b) && b.size == old(b.size) + 1 && b.bytes == old(b.bytes) + n
 //@   ensures b.msgs.base == old(b.msgs.base) || fresh(b.msgs)
 //@   ensures !result ==> unchanged(b.size) && unchanged(b.bytes) && len(b.msgs) == old(len(b.msgs))
+//@   ensures result ==> len(b.msgs) == old(len(b.msgs)) + 1 && same(b.msgs[len(b.msgs)-1].Value, msg.Value) && same(b.msgs[len(b.msgs)-1].Key, msg.Key)
 
 //@ func (*writeBatch).full
 //@   pure
@@ -267,6 +268,9 @@ package kafka
 //@   callsite (*batchQueue).Put requires held(ptw.mutex) && $1 != nil && $1.size >= 1 && $1.size <= ptw.w.batchSize() && $1.bytes <= ptw.w.batchBytes()
 //@   loop 0 assume-stable forall k :: 0 <= k && k < len(indexes) ==> 0 <= indexes[k] && int(indexes[k]) < len(msgs)
 //@   loop 0 assume-stable forall k :: 0 <= k && k < len(indexes) ==> 0 <= int64(msgs[indexes[k]].totalSize()) && int64(msgs[indexes[k]].totalSize()) <= ptw.w.batchBytes()
+// C01: the index of a message is filed under the batch that holds the message (error attribution per message): when the
+// loop goes round, the batch the index was filed under ends with that very message
+//@   loop 0 step len(batch.msgs) >= 1 && same(batch.msgs[len(batch.msgs)-1].Value, msgs[i].Value) && same(batch.msgs[len(batch.msgs)-1].Key, msgs[i].Key)
 //@   loop 0 invariant ptwInv(ptw) && -1 <= rangeindex
 //@   loop 0 invariant ptw.currBatch != nil && msgs != nil ==> ptw.currBatch.msgs.base != msgs.base
 //@   loop 1 unroll 2
